@@ -37,8 +37,14 @@ structure Res where
   reservation : Int
   deriving Repr, DecidableEq
 
+/-- Go's `int64(x)` for an integral float `x ≥ 0`: exact below 2^63; at or above it the result is
+implementation specific — amd64 yields the "integer indefinite" value MinInt64, which is what the
+model returns, so that no theorem can silently rely on an unbounded integer -/
+def int64OfRounded (x : Rat) : Int :=
+  if x < 9223372036854775808 then F64.roundAway x else -9223372036854775808
+
 /-- `int64(math.Round(cpu * float64(CPUPeriodBase)))` -/
-def quotaOf (cpu : Rat) : Int := F64.roundAway (F64.mul cpu 100000)
+def quotaOf (cpu : Rat) : Int := int64OfRounded (F64.mul cpu 100000)
 
 /-- `int64(math.Round(float64(1024) * divpart))` with `_, divpart := math.Modf(cpu)` -/
 def sharesOfFrac (cpu : Rat) : Int := F64.roundAway (F64.mul 1024 (F64.frac cpu))
